@@ -13,6 +13,9 @@ E1: bounded-exhaustive enumeration of (molecule, acyclic single heavy-atom bond)
             (expected product built here with RDKit only), unbonded when a restriction rule
             is reported, unchanged when no rule is reported.
  cross      every ordered pair of fragments of different cuts: general invariants only.
+ targeted   carbonyl/hydroxyl oxygen x phosphorus (with and without P=O) and vinyl carbon x
+            diazo, both orders, so that the three phosphorus rules and the nitrogen rule fire:
+            general invariants only.
 
 General invariants of every merge result: the result SMILES parses, no boundary is left,
 carbon count == carbon count of the fragments, heavy atoms == fragments + compounds of the
@@ -819,8 +822,8 @@ def run(tier, seed):
                 "acyclic single heavy-atom bond) round trips of the canonical spelling in "
                 "which a merge rule fired + distinct (molecule, bond, side) single-fragment "
                 "completions in which an expand rule fired + distinct ordered cross pairs in "
-                "which a merge rule fired (renumbered spellings and the second compound "
-                "order are evaluated but not counted as distinct).",
+                "which a merge rule fired + the targeted-library pairs (renumbered spellings "
+                "and the second compound order are evaluated but not counted as distinct).",
         "samples": [
             {"roundtrip": canon_items[ex_i][0]},
             {"roundtrip": canon_items[-1][0]},
